@@ -1,1 +1,732 @@
-//! engine: ref_eval (see DESIGN.md §4)
+//! E3 + E6 — table collector, synthesis-trace recorder and reference constraint evaluator.
+//!
+//! `collect` runs `Circuit::configure_with_params` + `FloorPlanner::synthesize` against a harness
+//! `Assignment` back-end (independent of the repository's `MockProver` and of its prover) and
+//! stores the fixed / advice / instance / selector tables, the copy list and — optionally — the
+//! ordered trace of structural events. `Tables::violations` evaluates, from the definition and
+//! row by row, every constraint class of the constraint system:
+//!   * gates: every polynomial of every gate is zero on every usable row;
+//!   * lookups: every input tuple on a usable row occurs among the table tuples of usable rows;
+//!   * copies: both cells of every recorded copy hold the same value;
+//!   * trash (additive-selector) arguments: on every row where the selector expression is
+//!     non-zero all constraint expressions are zero.
+//! Unassigned cells read as zero (what the real prover and key generator do). It uses only public
+//! accessors of `ConstraintSystem` and `Expression::evaluate`.
+
+use std::collections::{BTreeMap, BTreeSet, HashSet};
+
+use ff::{FromUniformBytes, PrimeField};
+use midnight_proofs::{
+    circuit::Value,
+    plonk::{
+        Advice, Any, Assignment, Challenge, Circuit, Column, ConstraintSystem, Error, Expression,
+        Fixed, FloorPlanner, Instance, Selector,
+    },
+    utils::rational::Rational,
+};
+
+/// One structural event of `synthesize` (E6). Advice *values* are never part of the trace.
+#[derive(Clone, Debug, PartialEq, Eq, Hash)]
+pub enum Event {
+    EnterRegion,
+    ExitRegion,
+    EnableSelector { selector: usize, row: usize },
+    AssignFixed { column: usize, row: usize, value: Vec<u8> },
+    FillFromRow { column: usize, row: usize, value: Vec<u8> },
+    AssignAdvice { column: usize, row: usize },
+    Copy { a: (u8, usize, usize), b: (u8, usize, usize) },
+    QueryInstance { column: usize, row: usize },
+}
+
+impl Event {
+    pub fn describe(&self) -> String {
+        format!("{self:?}")
+    }
+}
+
+fn any_tag(c: &Column<Any>) -> (u8, usize) {
+    let t = match c.column_type() {
+        Any::Advice(_) => 0u8,
+        Any::Fixed => 1u8,
+        Any::Instance => 2u8,
+    };
+    (t, c.index())
+}
+
+#[derive(Clone, Debug, PartialEq, Eq, Hash, PartialOrd, Ord)]
+pub enum CellRef {
+    Advice(usize, usize),
+    Fixed(usize, usize),
+    Instance(usize, usize),
+}
+
+/// Which constraint a violation belongs to.
+#[derive(Clone, Debug, PartialEq, Eq, Hash, PartialOrd, Ord)]
+pub enum Failure {
+    Gate { gate: usize, poly: usize, row: usize, name: String },
+    Lookup { lookup: usize, row: usize, name: String },
+    Copy { a: CellRef, b: CellRef },
+    Trash { trash: usize, poly: usize, row: usize, name: String },
+}
+
+impl Failure {
+    pub fn class(&self) -> &'static str {
+        match self {
+            Failure::Gate { .. } => "gate",
+            Failure::Lookup { .. } => "lookup",
+            Failure::Copy { .. } => "copy",
+            Failure::Trash { .. } => "trash",
+        }
+    }
+}
+
+pub struct Tables<F: PrimeField> {
+    pub k: u32,
+    pub n: usize,
+    pub usable_rows: usize,
+    pub cs: ConstraintSystem<F>,
+    pub fixed: Vec<Vec<F>>,
+    pub fixed_assigned: Vec<Vec<bool>>,
+    pub advice: Vec<Vec<F>>,
+    pub advice_assigned: Vec<Vec<bool>>,
+    pub instance: Vec<Vec<F>>,
+    pub selectors: Vec<Vec<bool>>,
+    pub copies: Vec<(CellRef, CellRef)>,
+    pub challenges: Vec<F>,
+    pub trace: Vec<Event>,
+}
+
+struct Collector<F: PrimeField> {
+    k: u32,
+    usable_rows: usize,
+    current_phase: u8,
+    advice_phase: Vec<u8>,
+    challenge_phase: Vec<u8>,
+    fixed: Vec<Vec<F>>,
+    fixed_assigned: Vec<Vec<bool>>,
+    advice: Vec<Vec<F>>,
+    advice_assigned: Vec<Vec<bool>>,
+    instance: Vec<Vec<F>>,
+    selectors: Vec<Vec<bool>>,
+    copies: Vec<(CellRef, CellRef)>,
+    challenges: Vec<F>,
+    perm_columns: Vec<Column<Any>>,
+    /// evaluate advice closures and store values (false = structure only, unknown witness ok)
+    with_values: bool,
+    record: bool,
+    trace: Vec<Event>,
+}
+
+fn extract<F: Clone>(v: Value<F>) -> Option<F> {
+    let mut out = None;
+    v.map(|x| out = Some(x));
+    out
+}
+
+fn cell_of(c: Column<Any>, row: usize) -> CellRef {
+    match c.column_type() {
+        Any::Advice(_) => CellRef::Advice(c.index(), row),
+        Any::Fixed => CellRef::Fixed(c.index(), row),
+        Any::Instance => CellRef::Instance(c.index(), row),
+    }
+}
+
+impl<F: PrimeField> Assignment<F> for Collector<F> {
+    fn enter_region<NR, N>(&mut self, _: N)
+    where
+        NR: Into<String>,
+        N: FnOnce() -> NR,
+    {
+        if self.record && self.current_phase == 0 {
+            self.trace.push(Event::EnterRegion);
+        }
+    }
+
+    fn annotate_column<A, AR>(&mut self, _: A, _: Column<Any>)
+    where
+        A: FnOnce() -> AR,
+        AR: Into<String>,
+    {
+    }
+
+    fn exit_region(&mut self) {
+        if self.record && self.current_phase == 0 {
+            self.trace.push(Event::ExitRegion);
+        }
+    }
+
+    fn enable_selector<A, AR>(&mut self, _: A, selector: &Selector, row: usize) -> Result<(), Error>
+    where
+        A: FnOnce() -> AR,
+        AR: Into<String>,
+    {
+        if self.current_phase != 0 {
+            return Ok(());
+        }
+        if row >= self.usable_rows {
+            return Err(Error::NotEnoughRowsAvailable { current_k: self.k });
+        }
+        self.selectors[selector.index()][row] = true;
+        if self.record {
+            self.trace.push(Event::EnableSelector {
+                selector: selector.index(),
+                row,
+            });
+        }
+        Ok(())
+    }
+
+    fn query_instance(&self, column: Column<Instance>, row: usize) -> Result<Value<F>, Error> {
+        if row >= self.usable_rows {
+            return Err(Error::NotEnoughRowsAvailable { current_k: self.k });
+        }
+        Ok(self
+            .instance
+            .get(column.index())
+            .and_then(|c| c.get(row))
+            .map(|v| Value::known(*v))
+            .unwrap_or_else(Value::unknown))
+    }
+
+    fn assign_advice<V, VR, A, AR>(
+        &mut self,
+        _: A,
+        column: Column<Advice>,
+        row: usize,
+        to: V,
+    ) -> Result<(), Error>
+    where
+        V: FnOnce() -> Value<VR>,
+        VR: Into<Rational<F>>,
+        A: FnOnce() -> AR,
+        AR: Into<String>,
+    {
+        if self.record && self.current_phase == 0 {
+            self.trace.push(Event::AssignAdvice {
+                column: column.index(),
+                row,
+            });
+        }
+        if row >= self.usable_rows {
+            return Err(Error::NotEnoughRowsAvailable { current_k: self.k });
+        }
+        if !self.with_values {
+            return Ok(());
+        }
+        if self.advice_phase[column.index()] != self.current_phase {
+            return Ok(());
+        }
+        let v: Option<Rational<F>> = extract(to().map(|v| v.into()));
+        match v {
+            Some(r) => {
+                self.advice[column.index()][row] = r.evaluate();
+                self.advice_assigned[column.index()][row] = true;
+                Ok(())
+            }
+            None => Err(Error::Synthesis("unknown value".into())),
+        }
+    }
+
+    fn assign_fixed<V, VR, A, AR>(
+        &mut self,
+        _: A,
+        column: Column<Fixed>,
+        row: usize,
+        to: V,
+    ) -> Result<(), Error>
+    where
+        V: FnOnce() -> Value<VR>,
+        VR: Into<Rational<F>>,
+        A: FnOnce() -> AR,
+        AR: Into<String>,
+    {
+        if self.current_phase != 0 {
+            return Ok(());
+        }
+        if row >= self.usable_rows {
+            return Err(Error::NotEnoughRowsAvailable { current_k: self.k });
+        }
+        let v: Option<Rational<F>> = extract(to().map(|v| v.into()));
+        let v = v.ok_or_else(|| Error::Synthesis("unknown value".into()))?.evaluate();
+        self.fixed[column.index()][row] = v;
+        self.fixed_assigned[column.index()][row] = true;
+        if self.record {
+            self.trace.push(Event::AssignFixed {
+                column: column.index(),
+                row,
+                value: v.to_repr().as_ref().to_vec(),
+            });
+        }
+        Ok(())
+    }
+
+    fn copy(
+        &mut self,
+        left_column: Column<Any>,
+        left_row: usize,
+        right_column: Column<Any>,
+        right_row: usize,
+    ) -> Result<(), Error> {
+        if self.current_phase != 0 {
+            return Ok(());
+        }
+        if left_row >= self.usable_rows || right_row >= self.usable_rows {
+            return Err(Error::NotEnoughRowsAvailable { current_k: self.k });
+        }
+        for c in [&left_column, &right_column] {
+            if !self.perm_columns.contains(c) {
+                return Err(Error::ColumnNotInPermutation(*c));
+            }
+        }
+        self.copies.push((cell_of(left_column, left_row), cell_of(right_column, right_row)));
+        if self.record {
+            let a = any_tag(&left_column);
+            let b = any_tag(&right_column);
+            self.trace.push(Event::Copy {
+                a: (a.0, a.1, left_row),
+                b: (b.0, b.1, right_row),
+            });
+        }
+        Ok(())
+    }
+
+    fn fill_from_row(
+        &mut self,
+        column: Column<Fixed>,
+        row: usize,
+        to: Value<Rational<F>>,
+    ) -> Result<(), Error> {
+        if self.current_phase != 0 {
+            return Ok(());
+        }
+        if row >= self.usable_rows {
+            return Err(Error::NotEnoughRowsAvailable { current_k: self.k });
+        }
+        let v = extract(to).ok_or_else(|| Error::Synthesis("unknown value".into()))?.evaluate();
+        for r in row..self.usable_rows {
+            self.fixed[column.index()][r] = v;
+            self.fixed_assigned[column.index()][r] = true;
+        }
+        if self.record {
+            self.trace.push(Event::FillFromRow {
+                column: column.index(),
+                row,
+                value: v.to_repr().as_ref().to_vec(),
+            });
+        }
+        Ok(())
+    }
+
+    fn get_challenge(&self, challenge: Challenge) -> Value<F> {
+        if self.challenge_phase[challenge.index()] < self.current_phase {
+            Value::known(self.challenges[challenge.index()])
+        } else {
+            Value::unknown()
+        }
+    }
+
+    fn push_namespace<NR, N>(&mut self, _: N)
+    where
+        NR: Into<String>,
+        N: FnOnce() -> NR,
+    {
+    }
+
+    fn pop_namespace(&mut self, _: Option<String>) {}
+}
+
+/// Options of `collect`.
+#[derive(Clone, Copy, Debug)]
+pub struct CollectOpts {
+    /// evaluate advice closures (needs a known witness)
+    pub with_values: bool,
+    /// record the structural event trace (E6)
+    pub record_trace: bool,
+}
+
+impl Default for CollectOpts {
+    fn default() -> Self {
+        CollectOpts {
+            with_values: true,
+            record_trace: false,
+        }
+    }
+}
+
+/// Deterministic challenges for table collection (same derivation as the repository's mock
+/// checker uses, so both see the same multi-phase witness).
+pub fn mock_challenges<F: FromUniformBytes<64>>(n: usize) -> Vec<F> {
+    let mut hash: [u8; 64] =
+        blake2b_simd::blake2b(b"Halo2-MockProver").as_bytes().try_into().unwrap();
+    (0..n)
+        .map(|_| {
+            hash = blake2b_simd::blake2b(&hash).as_bytes().try_into().unwrap();
+            F::from_uniform_bytes(&hash)
+        })
+        .collect()
+}
+
+/// Runs configure + synthesize of `circuit` against the collector.
+pub fn collect<F, C>(
+    k: u32,
+    circuit: &C,
+    instance: &[Vec<F>],
+    opts: CollectOpts,
+) -> Result<Tables<F>, String>
+where
+    F: PrimeField + FromUniformBytes<64>,
+    C: Circuit<F>,
+{
+    let n = 1usize << k;
+    let mut cs = ConstraintSystem::default();
+    let config = C::configure_with_params(&mut cs, circuit.params());
+    if n < cs.minimum_rows() {
+        return Err(format!("k={k} too small: minimum_rows={}", cs.minimum_rows()));
+    }
+    let usable_rows = n - (cs.blinding_factors() + 1);
+    if instance.len() != cs.num_instance_columns() {
+        return Err(format!(
+            "instance columns: given {}, circuit has {}",
+            instance.len(),
+            cs.num_instance_columns()
+        ));
+    }
+    let mut inst = vec![vec![F::ZERO; n]; cs.num_instance_columns()];
+    for (c, col) in instance.iter().enumerate() {
+        if col.len() > usable_rows {
+            return Err(format!("instance column {c} too long: {} > {usable_rows}", col.len()));
+        }
+        inst[c][..col.len()].copy_from_slice(col);
+    }
+    let advice_phase = cs.advice_column_phase();
+    let max_phase = advice_phase.iter().copied().max().unwrap_or(0);
+    let mut col = Collector {
+        k,
+        usable_rows,
+        current_phase: 0,
+        advice_phase,
+        challenge_phase: cs.challenge_phase(),
+        fixed: vec![vec![F::ZERO; n]; cs.num_fixed_columns()],
+        fixed_assigned: vec![vec![false; n]; cs.num_fixed_columns()],
+        advice: vec![vec![F::ZERO; n]; cs.num_advice_columns()],
+        advice_assigned: vec![vec![false; n]; cs.num_advice_columns()],
+        instance: inst,
+        selectors: vec![vec![false; n]; cs.num_selectors()],
+        copies: vec![],
+        challenges: mock_challenges::<F>(cs.num_challenges()),
+        perm_columns: cs.permutation().get_columns(),
+        with_values: opts.with_values,
+        record: opts.record_trace,
+        trace: vec![],
+    };
+    let phases: Vec<u8> = if opts.with_values { (0..=max_phase).collect() } else { vec![0] };
+    for phase in phases {
+        col.current_phase = phase;
+        C::FloorPlanner::synthesize(&mut col, circuit, config.clone(), cs.constants().clone())
+            .map_err(|e| format!("synthesis error in phase {phase}: {e:?}"))?;
+    }
+    Ok(Tables {
+        k,
+        n,
+        usable_rows,
+        cs,
+        fixed: col.fixed,
+        fixed_assigned: col.fixed_assigned,
+        advice: col.advice,
+        advice_assigned: col.advice_assigned,
+        instance: col.instance,
+        selectors: col.selectors,
+        copies: col.copies,
+        challenges: col.challenges,
+        trace: col.trace,
+    })
+}
+
+impl<F: PrimeField> Tables<F> {
+    #[inline]
+    fn rot(&self, row: usize, rotation: i32) -> usize {
+        (row as i64 + rotation as i64).rem_euclid(self.n as i64) as usize
+    }
+
+    pub fn get(&self, c: &CellRef) -> F {
+        match c {
+            CellRef::Advice(c, r) => self.advice[*c][*r],
+            CellRef::Fixed(c, r) => self.fixed[*c][*r],
+            CellRef::Instance(c, r) => self.instance[*c][*r],
+        }
+    }
+
+    pub fn set(&mut self, c: &CellRef, v: F) {
+        match c {
+            CellRef::Advice(c, r) => self.advice[*c][*r] = v,
+            CellRef::Fixed(c, r) => self.fixed[*c][*r] = v,
+            CellRef::Instance(c, r) => self.instance[*c][*r] = v,
+        }
+    }
+
+    /// Evaluates `expr` on `row` from the definition.
+    pub fn eval(&self, expr: &Expression<F>, row: usize) -> F {
+        expr.evaluate(
+            &|c| c,
+            &|s| {
+                if self.selectors[s.index()][row] {
+                    F::ONE
+                } else {
+                    F::ZERO
+                }
+            },
+            &|q| self.fixed[q.column_index()][self.rot(row, q.rotation().0)],
+            &|q| self.advice[q.column_index()][self.rot(row, q.rotation().0)],
+            &|q| self.instance[q.column_index()][self.rot(row, q.rotation().0)],
+            &|ch| self.challenges[ch.index()],
+            &|a| -a,
+            &|a, b| a + b,
+            &|a, b| a * b,
+            &|a, s| a * s,
+        )
+    }
+
+    /// Cells read by `expr` when evaluated on `row`.
+    pub fn cells_read(&self, expr: &Expression<F>, row: usize, out: &mut BTreeSet<CellRef>) {
+        let cells: std::cell::RefCell<&mut BTreeSet<CellRef>> = std::cell::RefCell::new(out);
+        expr.evaluate(
+            &|_| (),
+            &|_| (),
+            &|q| {
+                cells.borrow_mut().insert(CellRef::Fixed(q.column_index(), self.rot(row, q.rotation().0)));
+            },
+            &|q| {
+                cells.borrow_mut().insert(CellRef::Advice(q.column_index(), self.rot(row, q.rotation().0)));
+            },
+            &|q| {
+                cells
+                    .borrow_mut()
+                    .insert(CellRef::Instance(q.column_index(), self.rot(row, q.rotation().0)));
+            },
+            &|_| (),
+            &|_| (),
+            &|_, _| (),
+            &|_, _| (),
+            &|_, _| (),
+        );
+    }
+
+    /// True when the gate's polynomial can only be non-zero on `row` if one of its selector /
+    /// fixed factors is non-zero there: cheap pre-filter used to skip inactive rows. We simply
+    /// evaluate; this is the oracle, clarity over speed.
+    pub fn gate_failures(&self, rows: impl Iterator<Item = usize> + Clone, out: &mut Vec<Failure>, cap: usize) {
+        for (gi, gate) in self.cs.gates().iter().enumerate() {
+            for (pi, poly) in gate.polynomials().iter().enumerate() {
+                for row in rows.clone() {
+                    if self.eval(poly, row) != F::ZERO {
+                        if out.len() < cap {
+                            out.push(Failure::Gate {
+                                gate: gi,
+                                poly: pi,
+                                row,
+                                name: gate.name().to_string(),
+                            });
+                        } else {
+                            return;
+                        }
+                    }
+                }
+            }
+        }
+    }
+
+    fn tuple(&self, exprs: &[Expression<F>], row: usize) -> Vec<Vec<u8>> {
+        exprs.iter().map(|e| self.eval(e, row).to_repr().as_ref().to_vec()).collect()
+    }
+
+    pub fn lookup_failures(&self, out: &mut Vec<Failure>, cap: usize) {
+        for (li, l) in self.cs.lookups().iter().enumerate() {
+            let table: HashSet<Vec<Vec<u8>>> =
+                (0..self.usable_rows).map(|r| self.tuple(l.table_expressions(), r)).collect();
+            for row in 0..self.usable_rows {
+                if !table.contains(&self.tuple(l.input_expressions(), row)) {
+                    if out.len() < cap {
+                        out.push(Failure::Lookup {
+                            lookup: li,
+                            row,
+                            name: l.name().to_string(),
+                        });
+                    } else {
+                        return;
+                    }
+                }
+            }
+        }
+    }
+
+    pub fn copy_failures(&self, out: &mut Vec<Failure>, cap: usize) {
+        for (a, b) in &self.copies {
+            if self.get(a) != self.get(b) && out.len() < cap {
+                out.push(Failure::Copy {
+                    a: a.clone(),
+                    b: b.clone(),
+                });
+            }
+        }
+    }
+
+    pub fn trash_failures(&self, out: &mut Vec<Failure>, cap: usize) {
+        for (ti, t) in self.cs.trashcans().iter().enumerate() {
+            for row in 0..self.n {
+                if self.eval(t.selector(), row) == F::ZERO {
+                    continue;
+                }
+                for (pi, e) in t.constraint_expressions().iter().enumerate() {
+                    if self.eval(e, row) != F::ZERO {
+                        if out.len() < cap {
+                            out.push(Failure::Trash {
+                                trash: ti,
+                                poly: pi,
+                                row,
+                                name: t.name().to_string(),
+                            });
+                        } else {
+                            return;
+                        }
+                    }
+                }
+            }
+        }
+    }
+
+    /// All violated constraints (at most `cap` of them).
+    pub fn violations(&self, cap: usize) -> Vec<Failure> {
+        let mut out = vec![];
+        self.gate_failures(0..self.usable_rows, &mut out, cap);
+        self.lookup_failures(&mut out, cap);
+        self.copy_failures(&mut out, cap);
+        self.trash_failures(&mut out, cap);
+        out
+    }
+
+    pub fn satisfied(&self) -> bool {
+        self.violations(1).is_empty()
+    }
+
+    /// Violated constraints, restricted to the classes `MockProver` looks at (everything except
+    /// trash arguments). Used to tell apart "mock is blind to trash" (known finding F2) from
+    /// other disagreements.
+    pub fn violations_without_trash(&self, cap: usize) -> Vec<Failure> {
+        let mut out = vec![];
+        self.gate_failures(0..self.usable_rows, &mut out, cap);
+        self.lookup_failures(&mut out, cap);
+        self.copy_failures(&mut out, cap);
+        out
+    }
+
+    /// Assigned advice cells, in column-major order.
+    pub fn assigned_advice_cells(&self) -> Vec<(usize, usize)> {
+        let mut v = vec![];
+        for (c, col) in self.advice_assigned.iter().enumerate() {
+            for (r, a) in col.iter().enumerate() {
+                if *a {
+                    v.push((c, r));
+                }
+            }
+        }
+        v
+    }
+
+    /// For every advice cell: the classes of constraints that read it on a row where the
+    /// constraint is "active" (gate value depends on it is approximated by: the gate polynomial
+    /// changes when the cell changes by +1). Used for coverage stratification only.
+    pub fn classes_of_cell(&mut self, cell: (usize, usize)) -> BTreeSet<&'static str> {
+        let before = self.violations(usize::MAX).into_iter().collect::<BTreeSet<_>>();
+        let old = self.advice[cell.0][cell.1];
+        self.advice[cell.0][cell.1] = old + F::ONE;
+        let after = self.violations(usize::MAX).into_iter().collect::<BTreeSet<_>>();
+        self.advice[cell.0][cell.1] = old;
+        after.difference(&before).map(|f| f.class()).collect()
+    }
+
+    /// Copy-constraint equivalence classes (union-find over the recorded copies).
+    pub fn copy_classes(&self) -> BTreeMap<CellRef, Vec<CellRef>> {
+        let mut parent: BTreeMap<CellRef, CellRef> = BTreeMap::new();
+        fn find(p: &mut BTreeMap<CellRef, CellRef>, x: &CellRef) -> CellRef {
+            let px = p.get(x).cloned().unwrap_or_else(|| x.clone());
+            if &px == x {
+                p.insert(x.clone(), x.clone());
+                return px;
+            }
+            let r = find(p, &px);
+            p.insert(x.clone(), r.clone());
+            r
+        }
+        for (a, b) in &self.copies {
+            let ra = find(&mut parent, a);
+            let rb = find(&mut parent, b);
+            if ra != rb {
+                parent.insert(ra, rb);
+            }
+        }
+        let keys: Vec<CellRef> = parent.keys().cloned().collect();
+        let mut classes: BTreeMap<CellRef, Vec<CellRef>> = BTreeMap::new();
+        for k in keys {
+            let r = find(&mut parent, &k);
+            classes.entry(r).or_default().push(k);
+        }
+        classes
+    }
+
+    /// Structural digest used by C09/C17-style comparisons: fixed tables, selectors, copies.
+    pub fn structure_digest(&self) -> u64 {
+        use std::hash::{Hash, Hasher};
+        let mut h = std::collections::hash_map::DefaultHasher::new();
+        for col in &self.fixed {
+            for v in col {
+                v.to_repr().as_ref().hash(&mut h);
+            }
+        }
+        self.selectors.hash(&mut h);
+        self.copies.hash(&mut h);
+        h.finish()
+    }
+}
+
+/// Verdict of the repository's own development-time checker on the same circuit/instance.
+pub fn mock_verdict<F, C>(k: u32, circuit: &C, instance: &[Vec<F>]) -> Result<bool, String>
+where
+    F: PrimeField + FromUniformBytes<64> + Ord,
+    C: Circuit<F>,
+{
+    match midnight_proofs::dev::MockProver::run(k, circuit, instance.to_vec()) {
+        Ok(p) => Ok(p.verify().is_ok()),
+        Err(e) => Err(format!("{e:?}")),
+    }
+}
+
+/// Both verdicts for one circuit+instance: `(reference, mock)`; `Err` = synthesis error (a
+/// circuit that refuses to synthesise counts as "rejected" by callers where appropriate).
+pub struct Verdicts {
+    pub reference: Result<bool, String>,
+    pub mock: Result<bool, String>,
+    pub ref_failures: Vec<Failure>,
+    pub only_trash: bool,
+}
+
+pub fn check_circuit<F, C>(k: u32, circuit: &C, instance: &[Vec<F>]) -> Verdicts
+where
+    F: PrimeField + FromUniformBytes<64> + Ord,
+    C: Circuit<F>,
+{
+    let (reference, ref_failures, only_trash) = match collect(k, circuit, instance, CollectOpts::default()) {
+        Ok(t) => {
+            let f = t.violations(8);
+            let only_trash = !f.is_empty() && t.violations_without_trash(1).is_empty();
+            (Ok(f.is_empty()), f, only_trash)
+        }
+        Err(e) => (Err(e), vec![], false),
+    };
+    let mock = mock_verdict(k, circuit, instance);
+    Verdicts {
+        reference,
+        mock,
+        ref_failures,
+        only_trash,
+    }
+}
